@@ -588,7 +588,13 @@ class NetworkXPropertyGraph(ABCPropertyGraph, NetworkXMixin):
         assert node_id is not None
         assert label is not None
 
-        if self.node_exists(node_id=node_id, label=label):
+        # node id must be unique within the graph whatever the class of the node
+        same_id_nodes = list(nxq.search_nodes(self.storage.get_graph(self.graph_id),
+                                              {'and': [
+                                                  {'eq': [ABCPropertyGraph.GRAPH_ID, self.graph_id]},
+                                                  {'eq': [ABCPropertyGraph.NODE_ID, node_id]}
+                                              ]}))
+        if len(same_id_nodes) > 0:
             raise PropertyGraphQueryException(node_id=node_id, graph_id=self.graph_id,
                                               msg="Unable to add node - a node with this ID exists")
 
